@@ -422,14 +422,14 @@ def r_tree_state(ck: Checker) -> None:
                 bad = norm(x)[:50]
         what = f"Tree.{st.name} does not write Tree state (answers cannot depend on earlier queries)"
         if bad:
-            ck.violation("R-TREE-STATE", f, f.node, what, construct=f"Tree.{st.name} writes {bad}")
+            ck.violation("R-TREE-STATE", f, f.node, what, positive=True, construct=f"Tree.{st.name} writes {bad}")
         else:
             ck.holds("R-TREE-STATE", f, f.node, what)
     for d in c.node.body:
         if isinstance(d, ast.FunctionDef):
             for dec in d.decorator_list:
                 if (dotted(dec.func if isinstance(dec, ast.Call) else dec) or "").split(".")[-1] in ("lru_cache", "cache", "cached_property"):
-                    ck.violation("R-TREE-STATE", (c.mod.rel, f"Tree.{d.name}"), d, "Tree queries are not memoised", construct=f"Tree.{d.name} is memoised")
+                    ck.violation("R-TREE-STATE", (c.mod.rel, f"Tree.{d.name}"), d, "Tree queries are not memoised", positive=True, construct=f"Tree.{d.name} is memoised")
     if n < 8:
         ck.incomplete("R-TREE-STATE", None, None, f"only {n} Tree methods (>= 8 expected)")
 
